@@ -94,3 +94,9 @@ claim('C01', 'exploration', 'exhaustive short token sequences + random schemas/t
       'spellings/layout, their token-mutated forms and multi-text sequences cover the unbounded part. Accept/reject must agree with model_lang and after acceptance the whole tree walk must equal the model. '
       'The parser is a hand-written state machine, so systematic token enumeration plus randomised schema exploration is the level that reaches its per-state token handling.',
       'Trusts: model_lang.py (280 lines) as the reading of the language; unspecified corners (trailing commas, path-like names, TITLE without MULTI) are executed but not judged.')
+
+claim('C06', 'fault_enumeration', 'error injection at token positions of generated texts with generator-side position bookkeeping; the real diagnostics (file, line, count) are compared with the expected position decided by the reference interpreter',
+      'Valid texts over random schemas get one injected error (unknown name, unconvertible value, wrong token, premature end) and are laid out with every comment style, blank lines, CRLF, multi-line quoted strings, continuations and up to two '
+      'include levels; the generator knows the file and end line of every token, model_lang says at which token the text must be rejected, and every diagnostic of the failed parse must name exactly that file and line; accepted texts must '
+      'deliver no diagnostic at all. Line bookkeeping is spread over a dozen lexer actions and only wrong for particular construct sequences, so layout-randomised error-point enumeration is the fitting level.',
+      'Trusts: model_lang for the rejection point (cases where model and library disagree on accept/reject are C01\'s and are not judged here); the layout generator\'s own newline counting.')
